@@ -1,20 +1,19 @@
 SPECIFICATION Spec
 CONSTANTS
  Loops <- L2
- Callers <- C4
- LoopOf <- LoopOf_2x2
+ Callers <- C3
+ LoopOf <- LoopOf_2x1b
  MaxInv = 5
  MaxRetry = 2
  OwnMarkerOnly = TRUE
  ForeignCancelRetry = TRUE
  LifeCycles = TRUE
- Cancels = FALSE
- Failures = FALSE
+ Cancels = TRUE
+ Failures = TRUE
  Timeouts = TRUE
- Resumes = FALSE
+ Resumes = TRUE
  Evictions = FALSE
 CONSTRAINT Bound
-INVARIANT Inv_C01
 INVARIANT Inv_C06
 INVARIANT LockDiscipline
 INVARIANT MarkerOwner
